@@ -570,3 +570,207 @@ Proof.
   rewrite concat_app. unfold doc_toks. apply lexes_app; [|exact H2].
   apply prefix_lines_lexes. unfold ns_ok in Hns. apply andb_true_iff in Hns. tauto.
 Qed.
+
+(** ** (B) the automaton accepts [doc_toks]; labels and references it reads *)
+Lemma iri_tok_is_iri ns u : is_iri_tok (iri_tok ns u) = true.
+Proof. unfold iri_tok. destruct (best_ns ns u) as [[n p]|]; reflexivity. Qed.
+
+Lemma label_tok_is_iri ns k : is_iri_tok (label_tok ns k) = true.
+Proof. unfold label_tok. destruct (strip_label k); [apply iri_tok_is_iri|reflexivity]. Qed.
+
+(** what the automaton does with an iri token, state by state *)
+Lemma pstep_iri st t : is_iri_tok t = true ->
+  pstep st t = match st with
+               | PTop => Some PLabel | PHeadSet | PHeadSetIri => Some PHeadSetIri
+               | PBody | PSense => Some PPred | PPred | POr | PAt => Some PVal
+               | PSet | PSetIri => Some PSetIri
+               | PPrefix1 => match t with TPname _ [] => Some PPrefix2 | _ => None end
+               | PPrefix2 => match t with TIri _ => Some PTop | _ => None end
+               | _ => None
+               end.
+Proof. destruct t; try discriminate; intros _; destruct st; reflexivity. Qed.
+
+Definition type_refs (ns : nsdict) (t : str) : list token :=
+  if prefixb c_STARTING_CHAR_FOR_SHAPE_NAME t then
+    match strip_label t with Some u => [iri_tok ns u] | None => [] end
+  else [].
+
+(** a value atom, read after the predicate or after OR *)
+Lemma type_atom ns t st : type_ok ns t = true -> st = PPred \/ st = POr ->
+  prun st (type_toks ns t) = Some PVal /\ labels_from st (type_toks ns t) = [] /\
+  refs_from st (type_toks ns t) = type_refs ns t.
+Proof.
+  intros H Hst. unfold type_ok, type_toks, type_refs in *.
+  destruct (prefixb c_STARTING_CHAR_FOR_SHAPE_NAME t).
+  - unfold label_ok in H. destruct (strip_label t) as [u|]; [|discriminate].
+    pose proof (iri_tok_is_iri ns u) as Hi.
+    destruct (iri_tok ns u); try discriminate Hi; destruct Hst as [-> | ->]; cbn; auto.
+  - destruct (mem_str t kinds).
+    + destruct Hst as [-> | ->]; cbn; auto.
+    + pose proof (iri_tok_is_iri ns t) as Hi.
+      destruct (iri_tok ns t); try discriminate Hi; destruct Hst as [-> | ->]; cbn; auto.
+Qed.
+
+Definition target_refs (z : sercfg) (prop t : str) : list token :=
+  if str_eqb prop (z_tau z) then [] else type_refs (z_ns z) t.
+
+Lemma target_atom z prop t st : target_dom z prop t = true -> st = PPred \/ st = POr ->
+  prun st (target_toks z prop t) = Some PVal /\ labels_from st (target_toks z prop t) = [] /\
+  refs_from st (target_toks z prop t) = target_refs z prop t.
+Proof.
+  intros H Hst. unfold target_dom, target_toks, target_refs in *. destruct (str_eqb prop (z_tau z)).
+  - rewrite (plain_type_toks _ _ H). pose proof (iri_tok_is_iri (z_ns z) t) as Hi.
+    destruct (iri_tok (z_ns z) t); try discriminate Hi; destruct Hst as [-> | ->]; cbn; auto.
+  - apply type_atom; assumption.
+Qed.
+
+Lemma or_join_cons2 (x y : list token) r : or_join (x :: y :: r) = x ++ [TOr] ++ or_join (y :: r).
+Proof. reflexivity. Qed.
+
+Lemma targets_atoms z prop types : forallb (target_dom z prop) types = true -> types <> [] ->
+  forall st, st = PPred \/ st = POr ->
+  prun st (or_join (map (target_toks z prop) types)) = Some PVal /\
+  labels_from st (or_join (map (target_toks z prop) types)) = [] /\
+  refs_from st (or_join (map (target_toks z prop) types)) = flat_map (target_refs z prop) types.
+Proof.
+  induction types as [|t types IH]; [congruence|]. intros H _ st Hst. cbn [forallb] in H.
+  apply andb_true_iff in H. destruct H as [Ht Hts]. destruct (target_atom z prop t st Ht Hst) as [A1 [A2 A3]].
+  destruct types as [|t2 r].
+  - cbn [map or_join flat_map]. rewrite app_nil_r. auto.
+  - destruct (IH Hts ltac:(discriminate) POr (or_intror eq_refl)) as [B1 [B2 B3]].
+    cbn [map] in *. rewrite or_join_cons2. cbn [flat_map].
+    rewrite prun_app, A1, (labels_from_app _ _ _ _ A1), (refs_from_app _ _ _ _ A1), A2, A3.
+    cbn [app prun pstep labels_from refs_from]. rewrite B1, B2, B3. auto.
+Qed.
+
+Definition stmt_refs (z : sercfg) (s : stmt) : list token :=
+  if s_choice s then flat_map (target_refs z (s_prop s)) (s_types s) else target_refs z (s_prop s) (s_type s).
+
+Definition after_card (c : card) : pstate := match card_toks c with [] => PVal | _ => PCard end.
+
+Lemma card_run c : prun PVal (card_toks c) = Some (after_card c) /\ labels_from PVal (card_toks c) = [] /\
+  refs_from PVal (card_toks c) = [].
+Proof. unfold after_card. destruct c as [k| | |]; cbn; auto. destruct (N.eqb k 1); cbn; auto. Qed.
+
+Lemma after_card_cases c : after_card c = PVal \/ after_card c = PCard.
+Proof. unfold after_card. destruct (card_toks c); auto. Qed.
+
+(** one statement, from the body state *)
+Lemma stmt_run z s is_last : stmt_ok z s = true ->
+  prun PBody (stmt_toks z s is_last) = Some (if is_last then after_card (s_card s) else PBody) /\
+  labels_from PBody (stmt_toks z s is_last) = [] /\
+  refs_from PBody (stmt_toks z s is_last) = stmt_refs z s.
+Proof.
+  intros Hs. destruct (stmt_ok_parts z s Hs) as [Hp [Hne [Hty _]]].
+  pose proof (iri_tok_is_iri (z_ns z) (s_prop s)) as Hi.
+  assert (Hmid : prun PPred (if s_choice s then or_join (map (target_toks z (s_prop s)) (s_types s))
+                             else target_toks z (s_prop s) (s_type s)) = Some PVal /\
+                 labels_from PPred (if s_choice s then or_join (map (target_toks z (s_prop s)) (s_types s))
+                             else target_toks z (s_prop s) (s_type s)) = [] /\
+                 refs_from PPred (if s_choice s then or_join (map (target_toks z (s_prop s)) (s_types s))
+                             else target_toks z (s_prop s) (s_type s)) = stmt_refs z s).
+  { unfold stmt_refs. destruct (s_choice s).
+    - apply targets_atoms; auto.
+    - apply target_atom; auto. unfold s_type. destruct (s_types s) as [|t ts]; [congruence|].
+      cbn in Hty. apply andb_true_iff in Hty. tauto. }
+  destruct Hmid as [M1 [M2 M3]]. destruct (card_run (s_card s)) as [C1 [C2 C3]].
+  assert (Hrest : forall st, st = PBody \/ st = PSense ->
+    prun st ([iri_tok (z_ns z) (s_prop s)] ++
+             (if s_choice s then or_join (map (target_toks z (s_prop s)) (s_types s))
+              else target_toks z (s_prop s) (s_type s)) ++ card_toks (s_card s) ++ (if is_last then [] else [TSemi]))
+      = Some (if is_last then after_card (s_card s) else PBody) /\
+    labels_from st ([iri_tok (z_ns z) (s_prop s)] ++
+             (if s_choice s then or_join (map (target_toks z (s_prop s)) (s_types s))
+              else target_toks z (s_prop s) (s_type s)) ++ card_toks (s_card s) ++ (if is_last then [] else [TSemi])) = [] /\
+    refs_from st ([iri_tok (z_ns z) (s_prop s)] ++
+             (if s_choice s then or_join (map (target_toks z (s_prop s)) (s_types s))
+              else target_toks z (s_prop s) (s_type s)) ++ card_toks (s_card s) ++ (if is_last then [] else [TSemi])) = stmt_refs z s).
+  { intros st Hst. cbn [app prun labels_from refs_from].
+    assert (Hstep : pstep st (iri_tok (z_ns z) (s_prop s)) = Some PPred)
+      by (destruct Hst as [-> | ->]; rewrite (pstep_iri _ _ Hi); reflexivity).
+    rewrite Hstep.
+    rewrite prun_app, M1, (labels_from_app _ _ _ _ M1), (refs_from_app _ _ _ _ M1), M2, M3.
+    rewrite prun_app, C1, (labels_from_app _ _ _ _ C1), (refs_from_app _ _ _ _ C1), C2, C3.
+    assert (Hl : labels_from (after_card (s_card s)) (if is_last then [] else [TSemi]) = [] /\
+                 refs_from (after_card (s_card s)) (if is_last then [] else [TSemi]) = [] /\
+                 prun (after_card (s_card s)) (if is_last then [] else [TSemi]) =
+                 Some (if is_last then after_card (s_card s) else PBody)).
+    { destruct is_last; [auto|]. destruct (after_card_cases (s_card s)) as [-> | ->]; cbn; auto. }
+    destruct Hl as [L1 [L2 L3]]. rewrite L1, L2, L3, !app_nil_r.
+    destruct Hst as [-> | ->]; auto. }
+  unfold stmt_toks. destruct (s_inv s).
+  - assert (T1 : prun PBody [TCaret] = Some PSense) by reflexivity.
+    rewrite prun_app, T1, (labels_from_app _ _ _ _ T1), (refs_from_app _ _ _ _ T1).
+    change (labels_from PBody [TCaret]) with (@nil token). change (refs_from PBody [TCaret]) with (@nil token).
+    cbn [app]. apply Hrest. auto.
+  - cbn [app]. apply Hrest. auto.
+Qed.
+
+Definition closable (q : pstate) : Prop := pstep q TRBrace = Some PTop /\ q <> PTop /\ q <> PAt.
+
+Lemma stmts_run z l : forallb (stmt_ok z) l = true ->
+  exists q, closable q /\ prun PBody (stmts_toks z l) = Some q /\ labels_from PBody (stmts_toks z l) = [] /\
+            refs_from PBody (stmts_toks z l) = flat_map (stmt_refs z) l.
+Proof.
+  induction l as [|s l IH]; intros H.
+  - exists PBody. repeat split; try reflexivity; discriminate.
+  - cbn [forallb] in H. apply andb_true_iff in H. destruct H as [Hs Hl]. destruct l as [|s2 r].
+    + destruct (stmt_run z s true Hs) as [A1 [A2 A3]]. exists (after_card (s_card s)). cbn [stmts_toks flat_map].
+      rewrite app_nil_r. split; [|auto].
+      destruct (after_card_cases (s_card s)) as [-> | ->]; repeat split; try reflexivity; discriminate.
+    + destruct (stmt_run z s false Hs) as [A1 [A2 A3]]. destruct (IH Hl) as [q [Hq [B1 [B2 B3]]]].
+      exists q. split; [exact Hq|]. rewrite stmts_toks_cons2.
+      rewrite prun_app, A1, (labels_from_app _ _ _ _ A1), (refs_from_app _ _ _ _ A1), A2, A3, B1, B2, B3.
+      cbn [flat_map app]. auto.
+Qed.
+
+Definition shape_refs (z : sercfg) (sh : shape) : list token := flat_map (stmt_refs z) (sh_stmts sh).
+
+Lemma shape_run z sh : shape_ok z sh = true ->
+  prun PTop (shape_toks z sh) = Some PTop /\
+  labels_from PTop (shape_toks z sh) = [label_tok (z_ns z) (sh_name sh)] /\
+  refs_from PTop (shape_toks z sh) = shape_refs z sh.
+Proof.
+  intros H. destruct (shape_ok_parts z sh H) as [_ Hs]. destruct (stmts_run z (sh_stmts sh) Hs) as [q [[Q1 [Q2 Q3]] [B1 [B2 B3]]]].
+  pose proof (label_tok_is_iri (z_ns z) (sh_name sh)) as Hi. unfold shape_toks, shape_refs.
+  cbn [prun labels_from refs_from]. rewrite (pstep_iri PTop _ Hi), Hi. cbn [pstep].
+  rewrite prun_app, B1, (labels_from_app _ _ _ _ B1), (refs_from_app _ _ _ _ B1), B2, B3.
+  destruct q; try discriminate Q1; try congruence; cbn; rewrite ?app_nil_r; auto.
+Qed.
+
+Lemma shapes_run z l : forallb (shape_ok z) l = true ->
+  prun PTop (flat_map (shape_toks z) l) = Some PTop /\
+  labels_from PTop (flat_map (shape_toks z) l) = map (fun sh => label_tok (z_ns z) (sh_name sh)) l /\
+  refs_from PTop (flat_map (shape_toks z) l) = flat_map (shape_refs z) l.
+Proof.
+  induction l as [|sh l IH]; cbn [forallb flat_map map]; intros H; [auto|].
+  apply andb_true_iff in H. destruct H as [Hs Hl]. destruct (shape_run z sh Hs) as [A1 [A2 A3]].
+  destruct (IH Hl) as [B1 [B2 B3]].
+  rewrite prun_app, A1, (labels_from_app _ _ _ _ A1), (refs_from_app _ _ _ _ A1), A2, A3, B1, B2, B3. auto.
+Qed.
+
+Lemma prefix_run ns : forallb ns_entry_ok ns = true ->
+  prun PTop (prefix_toks ns) = Some PTop /\ labels_from PTop (prefix_toks ns) = [] /\ refs_from PTop (prefix_toks ns) = [].
+Proof.
+  unfold prefix_toks. induction ns as [|[n p] ns IH]; cbn [forallb flat_map]; intros H; [auto|].
+  apply andb_true_iff in H. destruct H as [_ H]. destruct (IH H) as [B1 [B2 B3]].
+  cbn [app fst snd prun pstep labels_from refs_from is_iri_tok]. auto.
+Qed.
+
+Theorem doc_run z l : C05_dom z l = true ->
+  prun PTop (doc_toks z l) = Some PTop /\
+  labels_from PTop (doc_toks z l) = map (fun sh => label_tok (z_ns z) (sh_name sh)) l /\
+  refs_from PTop (doc_toks z l) = flat_map (shape_refs z) l.
+Proof.
+  intros H. destruct (C05_dom_parts z l H) as [Hns Hl]. unfold ns_ok in Hns. apply andb_true_iff in Hns.
+  destruct Hns as [Hns _]. destruct (prefix_run _ Hns) as [A1 [A2 A3]]. destruct (shapes_run z l Hl) as [B1 [B2 B3]].
+  unfold doc_toks. rewrite prun_app, A1, (labels_from_app _ _ _ _ A1), (refs_from_app _ _ _ _ A1), A2, A3, B1, B2, B3. auto.
+Qed.
+
+(** W3: the rendered document is recognised *)
+Theorem document_recognised z l : C05_dom z l = true ->
+  exists text, render z l = Some text /\ recognise text = true.
+Proof.
+  intros H. destruct (render_lexes z l H) as [text [Hr Hl]]. exists text. split; [exact Hr|].
+  unfold recognise. rewrite (lexes_lex _ _ Hl). unfold parses. destruct (doc_run z l H) as [-> _]. reflexivity.
+Qed.
